@@ -10,83 +10,83 @@ CHECKS = {
  "C01": ("exploration",
          "Regimes.tla holds, per one-variable function, its evaluation regimes (Taylor window around 1, large-argument expansion, special-cased points 0, 1/4, 1, tiny-argument branch) as argument classes; TLC enumerates (function, class), the harness places adjacent doubles on both sides of every regime boundary and random points inside every regime; Defs.tla holds the published closed forms as exact polynomial identities N(x, atoms)/D(x) and Trace_C01.tla decides |y - N/D| <= 1e-7 max(|N/D|, S) in exact arithmetic on the logged doubles (1e-13 for Li2, Cl2, complex Li2), the documented values at 0 and 1, and NaN for negative arguments",
          "K8, K9 repaired (large-argument expansions); transcendental atoms (log, Li2, f_PS, Cl2) from mpmath at 400 bits are trusted; points are sampled within each class",
-         "TLA+ trace validation (Trace_C01.tla, Defs.tla, Dyadic.tla) over TLC-enumerated regime classes (Regimes.tla)", "DESIGN 5/C01"),
+         "TLA+ trace validation (Trace_C01.tla, Defs.tla, Dyadic.tla) over TLC-enumerated regime classes (Regimes.tla)", "DESIGN 10.3 and 5/C01"),
  "C02": ("exploration",
          "Regimes.tla holds the case analysis of the many-variable functions as argument classes (generic, exactly equal, nearly equal at 1e-12..1e-1, an argument equal or close to 1, both in the 1e-4 window around 1, both small, vanishing Kaellen function exactly and at 1e-12..1e-3, zero arguments, physical quark masses over charged-Higgs masses); Defs.tla holds the definitions with their degenerate cases (Fa, Fb from G3, G4 and their derivatives, Iabc with its equal-argument and zero limits, Phi and Phi/lambda^2 from the Davydychev-Tausk function, the Kaellen polynomial, the difference quotients FPZ, FSZ, FCWl with the limit x f' - f, f_CSd, f_CSu of Eqs.(61),(62) and their quotients FCWu, FCWd); Trace_C02.tla decides the definitional comparison (1e-6, Fa / Fb 1e-4, floor 1e-13 M^p), permutation invariance and homogeneity (Iabc, Phi, lambda^2) in exact arithmetic",
          "K10, K19 repaired; atoms from mpmath at 400 bits are trusted; FCWu / FCWd at exactly equal scales are left to the C11 paths; tuples are sampled within each class",
-         "TLA+ trace validation (Trace_C02.tla, Defs.tla, Dyadic.tla) over TLC-enumerated argument classes (Regimes.tla)", "DESIGN 5/C02"),
+         "TLA+ trace validation (Trace_C02.tla, Defs.tla, Dyadic.tla) over TLC-enumerated argument classes (Regimes.tla)", "DESIGN 10.3 and 5/C02"),
  "C03": ("exploration",
          "Trace_C03.tla holds Eqs.(2.11a,b) with the couplings (2.5a,b,o,p) of arXiv:1311.1775 and the flavour-summed one-loop THDM expression of arXiv:1607.06292 (scalar, pseudoscalar, charged Higgs, minus the SM Higgs term) and evaluates them in exact complex / rational arithmetic from the couplings, masses, mixing matrices and Yukawa matrices the public getters report, with loop functions from their closed forms at 400 bits; the library's amu1LChi0, amu1LChipm, calculate_amu_1loop must agree to 1e-8 of the sum of the magnitudes of the terms.  Points per TLC-enumerated class: all sign patterns of mu, M1, M2 x tan(beta) x spectrum x tree / converted Yukawa; THDM all six Yukawa types x basis of origin x lepton-flavour-violating Delta / Pi x tan(beta)",
          "the diagonalisation itself is decided by C04 on the same kind of points (assume-guarantee); magnitudes sampled; formulas transcribed from the cited equations",
-         "TLA+ trace validation (Trace_C03.tla: formulas in the spec, exact arithmetic in Dyadic.tla) over TLC-enumerated classes", "DESIGN 5/C03"),
+         "TLA+ trace validation (Trace_C03.tla: formulas in the spec, exact arithmetic in Dyadic.tla) over TLC-enumerated classes", "DESIGN 10.3 and 5/C03"),
  "C04": ("exploration",
          "Trace_C04.tla contains the tree-level mass matrices of the nine sfermion sectors, three sneutrinos, charginos and neutralinos written from the Lagrangian (D-terms from T3 and Q, GUT-normalised g1, SLHA sign of mu) and validates, with exact products, that every reported mass/mixing pair reconstructs them (Z^T diag(m^2) Z, U^T diag(m) V, N^T diag(m) N), that mixing matrices are unitary, masses non-negative and ordered, Goldstones at index 0 with MZ, MW, the tree-level Higgs identities and chargino/neutralino trace/determinant relations hold, a tachyon is reported exactly for a negative eigenvalue of a monitored sector, and exchanging two generations exchanges the spectra",
          "Higgs-sector matrices are not reconstructed (their soft masses are fixed internally by the tadpole equations): identities only; magnitudes sampled; tolerance 1e-11 of the matrix norm",
-         "TLA+ trace validation (Trace_C04.tla: mass matrices transcribed into the spec, exact arithmetic in Dyadic.tla)", "DESIGN 5/C04"),
+         "TLA+ trace validation (Trace_C04.tla: mass matrices transcribed into the spec, exact arithmetic in Dyadic.tla)", "DESIGN 10.3 and 5/C04"),
  "C05": ("model_checking",
          "MSSMModel.tla models the conversion as the sequence of steps the code takes (start, each iteration of the two fixed-point fits, stop by convergence / iteration limit / no improvement / NaN, root finder, reset, flag or unflag, final clear_problems) as a function Enabled/Apply over an ordered precision domain; TLC explores all step sequences over 4 precision levels and checks ConvergedOrWarned, WarnOnlyIfNotConverged, LoopBound, FlagsIndependent and termination; two wrong variants violate ConvergedOrWarned.  The guarded hooks of MSSMNoFV_onshell.cpp emit exactly these steps; Trace_C05.tla replays them on the same Enabled/Apply (precisions as exact dyadic numbers), flags any step the model does not allow, and checks at the fit's end that the smuon pole mass is met or the warning set; on the final public observation it checks chargino / bino-like neutralino / sneutrino / right-smuon residuals against the requested precision and the round trip of mu, M1, M2, ml2, me2 and a_mu",
          "K15 (final spectrum misses the right-smuon pole mass after the last Yukawa update) is a known finding; round trip asserted on the well-conditioned subset; inputs generated from on-shell points",
-         "TLC model checking of MSSMModel.tla + TLA+ trace validation (Trace_C05.tla) replaying hook events on the same machine", "DESIGN 5/C05"),
+         "TLC model checking of MSSMModel.tla + TLA+ trace validation (Trace_C05.tla) replaying hook events on the same machine", "DESIGN 10.3 and 5/C05"),
  "C06": ("exploration",
          "all 2^13 sign patterns are enumerated by TLC (a seeded subset in the quick tier), each concretised with random magnitudes; every function of the three public headers and of the helper headers and every mass is recorded for the original and the flipped point and compared by TLC at relative 1e-9; the discrete sign algebra is an ASSUME of the trace spec",
          "magnitudes are sampled; trusted: TLC, Dyadic.tla, the lossless encoder",
-         "TLA+ trace validation (Trace_C06.tla) of paired executions; TLC-enumerated sign patterns", "DESIGN 5/C06"),
+         "TLA+ trace validation (Trace_C06.tla) of paired executions; TLC-enumerated sign patterns", "DESIGN 10.3 and 5/C06"),
  "C07": ("exploration",
          "families of models scaled by k = 1..64 from TLC-enumerated classes; the trace spec keeps the previous family member and checks the 1/k^2 laws, the fixed tan(beta) correction and the uncertainty floor as division-free inequalities in exact arithmetic",
          "constants C1, C2 in Trace_C07.tla are 10 x the maxima observed on the unchanged tree; corrections are measured against the sum of magnitudes of the terms",
-         "TLA+ trace validation (Trace_C07.tla) with family state", "DESIGN 5/C07"),
+         "TLA+ trace validation (Trace_C07.tla) with family state", "DESIGN 10.3 and 5/C07"),
  "C08": ("model_checking",
          "THDMModel.tla models the extraction of the CP-even mixing angle on the lattice of multiples of pi/16 (exact sign tables) for every beta, beta-alpha and eigenvector sign; AlphaOK holds for the atan2 extraction and is violated by the asin extraction of the unchanged tree (K1).  Trace_C08.tla validates models built from TLC-enumerated classes (sector of sin(beta-alpha) x tan(beta) class x Yukawa type x real/complex CKM x basis of origin): masses, angle (with cos >= 0), tan(beta), lambda_6/7, m12^2 reproduced; vector bosons, Goldstones at index 0, fermion masses = SM input; |Vu Vd^dagger| = |CKM|; rebuild in the other basis gives the same spectrum/quartics",
          "tolerances: 1e-9 of the largest squared mass, angle conditioned by M2/(mH^2-mh^2), measured margins >= 100 on the repaired tree; magnitudes sampled",
-         "TLC model checking of THDMModel.tla + TLA+ trace validation (Trace_C08.tla, exact complex products in Dyadic.tla)", "DESIGN 5/C08"),
+         "TLC model checking of THDMModel.tla + TLA+ trace validation (Trace_C08.tla, exact complex products in Dyadic.tla)", "DESIGN 10.3 and 5/C08"),
  "C09": ("model_checking",
          "Yukawa.tla holds Table 1 of arXiv:1607.06292 as symbols, rho_f per type and the read/ignore matrix, checked by TLC (ASSUME); Trace_C09.tla validates pairs of real models: type I/II/X/Y vs aligned with the table's zeta_f (all results and the twelve Yukawa getters, running on and off), aligned(zeta, Delta) vs general(Pi) with running off (one-loop, fermionic two-loop, Yukawas), and every (type, ignored parameter) pair of the matrix perturbed (bit-identical results)",
          "relative 1e-9 with a floor of 1e-12 |a_mu| (observed <= 1e-11); magnitudes sampled",
-         "TLC-checked Yukawa.tla + TLA+ trace validation (Trace_C09.tla) of paired models", "DESIGN 5/C09"),
+         "TLC-checked Yukawa.tla + TLA+ trace validation (Trace_C09.tla) of paired models", "DESIGN 10.3 and 5/C09"),
  "C10": ("exploration",
          "Trace_C10.tla keeps the reference / previous member of each family: SM-limit families (cos(beta-alpha) = 0, m_h = m_hSM = m over six values) must be independent of m within 1e-9 of one light-Higgs term; decoupling families (M = 1..31.6 TeV, fixed quartics, m_hSM = m_h) must shrink per component by 0.45 per factor sqrt(10) relative to the magnitude of the component's sub-parts",
          "first decoupling step only asserted not to grow (valid large-tan(beta) points reach 0.72); K12 (bosonic 2L noise >= 10 TeV) is a known finding; scales computed by the driver",
-         "TLA+ trace validation (Trace_C10.tla) with family state", "DESIGN 5/C10"),
+         "TLA+ trace validation (Trace_C10.tla) with family state", "DESIGN 10.3 and 5/C10"),
  "C11": ("exploration",
          "Trace_C11.tla collects the 23 offsets d = 0, +-1e-13 .. +-1e-3 of a one-parameter path through a TLC-enumerated mass coincidence (Regimes.tla: m = a, 2a, a/2, a + b, |a - b| over the masses of a THDM point, and mass / parameter coincidences of MSSM points located by bisection; components: bosonic / fermionic two-loop and one-loop parameter structs, and the public mass-basis path) and evaluates at the end of the path, in exact arithmetic: every value finite; if the path is usable (<= 20 % change between the ends) every value within 1 % of the contribution's magnitude of the line through the ends",
          "K16, K17, K18 are known findings (K2 repaired); MSSM paths move a Lagrangian parameter through the bisected coincidence; uncertainties are exempt from the band where a_mu^1L or a_mu^2L changes sign on the path (kink of |.| in their definition)",
-         "TLA+ trace validation (Trace_C11.tla, Dyadic.tla) over TLC-enumerated coincidences (Regimes.tla)", "DESIGN 5/C11"),
+         "TLA+ trace validation (Trace_C11.tla, Dyadic.tla) over TLC-enumerated coincidences (Regimes.tla)", "DESIGN 10.3 and 5/C11"),
  "C12": ("model_checking",
          "Linalg.tla models, on exact Gaussian-integer matrices with integer eigenvector matrices (Q Q^T = c I), what GM2Calc composes on top of the numerical back ends - eigen -> sort by |w| -> adjoint; eigen -> phase i for negative eigenvalues -> sort -> transpose; svd -> reverse values and permute vectors -> transpose - with the back end abstracted as 'any exact decomposition in its own convention' (all tie-breakings explored); the documented contracts hold for all matrices in the bounded class and four convention slips violate them.  Trace_C12.tla validates calls of the real templates (fs_svd, svd, reorder_svd, [fs_]diagonalize_hermitian, [fs_|reorder_]diagonalize_symmetric; real and complex; 2x2..4x4) on TLC-enumerated classes (distinct/double/triple/all-equal/zero/negative-pair/hierarchical/integer/zero-row spectra x diagonal/signed-permutation/random-unitary bases): reconstruction, unitarity, sign, ordering and error bounds with exact products",
          "tolerance relative to the matrix norm (512 eps; 2^27 eps for real 3x3 eigen problems solved by Eigen's closed-form computeDirect); non-square instantiations are not exercised",
-         "TLC model checking of Linalg.tla + TLA+ trace validation (Trace_C12.tla, exact complex matrix products in Dyadic.tla)", "DESIGN 5/C12"),
+         "TLC model checking of Linalg.tla + TLA+ trace validation (Trace_C12.tla, exact complex matrix products in Dyadic.tla)", "DESIGN 10.3 and 5/C12"),
  "C13": ("model_checking",
          "SLHA.tla: an operational model of the reader (append lines, ordered passes over same-named blocks, scale filter, token conversion) is model-checked exhaustively against the denotation of a file (last assignment per block/key among the blocks read) and against the rewrite classes of the property, with wrong reader variants as non-vacuity checks; TLC-enumerated abstract files are rendered in several concrete layouts and in the normal form of their denotation, read by the real GM2_slha_io, and the recorded parameters/exception classes are validated by TLC (Trace_C13.tla); every documented key of the three formats is changed alone and must move exactly the documented parameter; whole-program runs of rewritten complete inputs must give the same result",
          "bounded files (MaxLen 3 quick / 5 thorough over a 19-symbol alphabet); matrix blocks only through whole-program runs; trusted: TLC, renderer (harness/lib/slha_render.py)",
-         "TLC model checking of SLHA.tla + TLA+ trace validation (Trace_C13.tla) of the real reader on TLC-generated files", "DESIGN 5/C13"),
+         "TLC model checking of SLHA.tla + TLA+ trace validation (Trace_C13.tla) of the real reader on TLC-generated files", "DESIGN 10.3 and 5/C13"),
  "C14": ("model_checking",
          "CLI.tla: the program as a machine (argument parsing, source, GM2CalcConfig entries in file order, reader/model outcome per input class, writer, catch, exit) is model-checked for all argument vectors, configuration-entry sequences, all 480 option vectors and six input classes: termination under fairness, exit status in {0,1}, every failure diagnosed, clean stdout, and membership in the declarative predicate Allowed; wrong variants demonstrate non-vacuity.  TLC-enumerated environments are concretised (real argv, real input files per input class, real GM2CalcConfig text, stdin) and run on the ASan+UBSan(+float-cast-overflow)+leak build; Trace_C14.tla replays CLI.tla's own actions for each environment and requires the observed exit status / stdout items to equal the machine's; mutated shipped inputs, directed extreme values and random bytes are validated against Allowed",
          "memory safety and UB are observed through the sanitizer build, not derived from the model; 'any byte sequence' is sampled; trusted: stdout abstraction (harness/lib/cli.py), TLC",
-         "TLC model checking of CLI.tla + trace validation replaying CLI.tla actions (Trace_C14.tla) on executions of the sanitizer build", "DESIGN 5/C14"),
+         "TLC model checking of CLI.tla + trace validation replaying CLI.tla actions (Trace_C14.tla) on executions of the sanitizer build", "DESIGN 10.3 and 5/C14"),
  "C15": ("model_checking",
          "CLI.tla (CLI_full.cfg) checks the slot table - which symbolic quantity is printed in which slot for each of the 480 option vectors and 3 input types, default format per input type, uncertainty placement - as invariants; Trace_C15.tla validates executions of gm2calc.x against API values recorded from the library for the same input: printed decimals equal the API value to the printed precision (minimal, SLHA blocks, every number of both detailed reports incl. products and sums), parts add up to totals, every percentage is 100 x component / reference, the same text in formats 0/2/3/4, uncertainty exactly where documented, SLHA echo token-for-token",
          "quick tier: covering subset of 60 option vectors per input (all 480 in the thorough tier), shipped inputs and test points; trusted: decimal/stdout parsing in the harness, TLC",
-         "TLC model checking of CLI.tla slot invariants + TLA+ trace validation (Trace_C15.tla) of program output against recorded API values", "DESIGN 5/C15"),
+         "TLC model checking of CLI.tla slot invariants + TLA+ trace validation (Trace_C15.tla) of program output against recorded API values", "DESIGN 10.3 and 5/C15"),
  "C16": ("model_checking",
          "Defects.tla holds the catalogue of documented defects, the exception classes a refusal may carry and the rules of the property as predicates; TLC enumerates all defect sets of size <= 2; CLI.tla is model-checked for the exit-status rules (refused / problem flagged / warnings only) over all input classes, force-output and formats.  Every defect set x force-output is applied to random valid points through the C++ API, the C API and gm2calc.x in the three input formats; Trace_C16.tla evaluates the rules on each recorded outcome (exception class / error code, stderr warnings, problem flag, finiteness, exit status, presence of physics output)",
          "a refusal under force-output counts as rejection; the massless-chargino defect is not enumerated (not realisable exactly from outside); SLHA-format program runs use the shipped example point; trusted: Defects.tla transcription of the documentation, TLC",
-         "TLC enumeration of defect sets + model checking of CLI.tla + TLA+ trace validation (Trace_C16.tla) of library and program outcomes", "DESIGN 5/C16"),
+         "TLC enumeration of defect sets + model checking of CLI.tla + TLA+ trace validation (Trace_C16.tla) of library and program outcomes", "DESIGN 10.3 and 5/C16"),
  "C17": ("model_checking",
          "CAPI.tla: handles and the mirrored C++ object as a state machine (null/live/freed, tan(beta) set or not, THDM built with a valid or out-of-range enum, spectrum calculated); all call sequences over 28 action classes are explored to depth 8 (NeverAborts holds with exception-tight wrappers; the unchanged tree's protection table violates it - model-level reproduction of K6); TLC simulates call histories of depth 40 which are concretised (random function of each class, finite and non-finite values, buffer lengths 0..64, NULL arguments) and replayed on a C handle and a mirrored C++ object in a forked child of the ASan+UBSan build; Trace_C17.tla checks per call: bit-for-bit agreement with the mirror, NaN / error code for a throwing mirror, get(set(x)) = x, bounded and terminated string getters, and per sequence that the process survived",
          "use-after-free, out-of-range indices and enum values outside the enumeration's value range 0..7 (whose load is UB in C++) are outside the alphabet; trusted: the C -> C++ correspondence table of the driver (from the header documentation), fork/waitpid observation, TLC",
-         "TLC model checking + simulation of CAPI.tla; TLA+ trace validation (Trace_C17.tla) of C-API call sequences replayed against a C++ mirror under sanitizers", "DESIGN 5/C17"),
+         "TLC model checking + simulation of CAPI.tla; TLA+ trace validation (Trace_C17.tla) of C-API call sequences replayed against a C++ mirror under sanitizers", "DESIGN 10.3 and 5/C17"),
  "C19": ("model_checking",
          "Purity.tla: each API function as a process Begin -> (CopyModel -> MutateCopy)? -> Read -> End with read set (the caller's model) and write set (its own copy only); all interleavings of the threads' micro-steps are model-checked for NoConflict, SharedUnchanged, Pure and Deterministic; the variants 'function-static cache' and 'convert the caller's model in place and restore' violate them (non-vacuity).  TLC-sampled schedules (2..16 threads) are replayed on identical objects sequentially, in reverse thread order and concurrently from a barrier with random yields, on the plain build and under ThreadSanitizer; Trace_C19.tla requires the bit-exact hash of the complete public state of every argument to be unchanged by const calls, the result bits to be a function of (model, operation, state hash) across phases/threads/orders, agreement on a copy, and no ThreadSanitizer report",
          "race freedom is observed (TSan), not derived; interleavings are exhaustive only in the model (2 threads quick / 3 threads thorough, 2 operations each); trusted: state projection of the harness, TLC",
-         "TLC model checking of Purity.tla (all interleavings) + TLA+ trace validation (Trace_C19.tla) of sequential / permuted / concurrent replays incl. ThreadSanitizer", "DESIGN 5/C19"),
+         "TLC model checking of Purity.tla (all interleavings) + TLA+ trace validation (Trace_C19.tla) of sequential / permuted / concurrent replays incl. ThreadSanitizer", "DESIGN 10.3 and 5/C19"),
  "C20": ("exploration",
          "Trace_C20.tla: CKM from Wolfenstein (inside / edge / outside / non-finite) and angle input: unitarity V V^dagger = 1 to 1e-14 as exact complex products, rejection outside the range; electroweak relations of gm2calc::SM as division-free identities (4 pi as a dyadic enclosure); running masses on geometric scale ladders: finite and positive, strictly decreasing, m(Q_k)^2 = m(Q_{k-1}) m(Q_{k+1}) (composition), boundary values, Lambda_QCD fallback; THDM lepton Yukawas with running on/off",
          "K14 (mb running NaN for alpha_s >~ 0.18 at small m_b) is a known finding; the mt boundary value is only bracketed; scale <= 0 bypass not reachable through the API",
-         "TLA+ trace validation (Trace_C20.tla, Dyadic.tla)", "DESIGN 5/C20"),
+         "TLA+ trace validation (Trace_C20.tla, Dyadic.tla)", "DESIGN 10.3 and 5/C20"),
  "C18": ("exploration",
          "random MSSM/THDM models from TLC-enumerated classes; every recorded call of the uncertainty API is validated by TLC against the documented definitions (floor, sums, overload agreement) in exact arithmetic",
          "sampling inside classes is not exhaustive; trusted: TLC, lossless double encoder, class generators",
-         "TLA+ trace validation (Trace_C18.tla, Dyadic.tla) of traces recorded from the real library", "DESIGN 5/C18"),
+         "TLA+ trace validation (Trace_C18.tla, Dyadic.tla) of traces recorded from the real library", "DESIGN 10.3 and 5/C18"),
 }
 
 NOT_YET = "not yet built in this round (specification and harness in progress)"
